@@ -154,11 +154,18 @@ def e10(x, digits=3):
     return s.rjust(10)
 
 
-def tracerinfo_line(name, fullname, molwt, carbon, tracer, scale, unit):
+def tracerinfo_line(name, fullname, molwt, carbon, tracer, scale, unit,
+                    scale_text=None):
+    """scale_text: optional explicit rendering of the SCALE field (any
+    Fortran-readable number of at most 10 characters, right-justified in
+    columns 62-71); default is the E10.3 form GEOS-Chem writes"""
     if len(name) > 8 or len(fullname) > 30 or len(unit) > 40:
         raise FormatError('tracerinfo field too long')
+    stxt = e10(scale) if scale_text is None else scale_text.rjust(10)
+    if len(stxt) != 10 or float(stxt) != float(scale):
+        raise FormatError('scale field %r for %r' % (stxt, scale))
     line = '%-8s %-30s%10s%3d%9d%10s %s' % (
-        name, fullname, e10(molwt), carbon, tracer, e10(scale), unit)
+        name, fullname, e10(molwt), carbon, tracer, stxt, unit)
     return line
 
 
@@ -174,7 +181,7 @@ def tracerinfo_text(rows, comments=True):
     for r in rows:
         out.append(tracerinfo_line(r['name'], r['fullname'], r['molwt'],
                                    r['carbon'], r['tracer'], r['scale'],
-                                   r['unit']))
+                                   r['unit'], r.get('scale_text')))
     return '\n'.join(out) + '\n'
 
 
